@@ -2089,7 +2089,10 @@ class PrepareAst:
 
                     # non default __new__ not (yet) supported
 
-                    new_call = self.subcall(obj_type.__new__, [obj_type, *args], kwargs)
+                    # pass a copy, the keyword arguments are needed again for __init__
+                    new_call = self.subcall(
+                        obj_type.__new__, [obj_type, *args], {**kwargs}
+                    )
                     new_obj = new_call.result()
 
                     if not isinstance(new_obj, obj_type):
